@@ -258,6 +258,14 @@ func (c *Ctx) Violation(family string, index int64, key, detail string, cs any) 
 	}
 	c.sum.Violations = append(c.sum.Violations, Violation{Key: key, Detail: detail, Family: family, Index: index,
 		Seed: c.Seed, Tier: c.Tier, Case: cs})
+	// persist what is known so far: if the process dies later (fatal error, OOM, watchdog) the violations
+	// recorded up to now are not lost (the orchestrator reads a summary with done=false as partial)
+	if b, err := json.Marshal(&c.sum); err == nil {
+		tmp := fmt.Sprintf("%s/summary_%d.json.tmp", c.OutDir, c.Shard)
+		if os.WriteFile(tmp, b, 0o644) == nil {
+			os.Rename(tmp, fmt.Sprintf("%s/summary_%d.json", c.OutDir, c.Shard))
+		}
+	}
 }
 
 // Family runs n cases of a family. Case i (global index) belongs to shard i % NShards.
